@@ -4,6 +4,7 @@ package checks
 
 import (
 	"fmt"
+	"os"
 	"sort"
 	"strings"
 	"testing"
@@ -318,25 +319,27 @@ func c03NonTrivial(m behMember, merged cfg.Config) bool {
 func TestC03(t *testing.T) {
 	col := ev.Get()
 	var q []*c03Pending
-	var rc c03Case
-	if replayPayload(t, &rc) {
-		if rc.Position == "" { // behavioural replay
+	stored := func(path string) {
+		var rc c03Case
+		loadRegress(t, path, &rc)
+		if rc.Position == "" { // behavioural case
 			var bc behCase
-			replayPayload(t, &bc)
+			loadRegress(t, path, &bc)
 			behBatch(t, bc, c03NonTrivial, c02Check, nil)
 			return
 		}
 		c03Eval(t, rc, &q)
 		c03Flush(t, &q, 1)
+	}
+	if p := os.Getenv("VERIF_REPLAY"); p != "" {
+		stored(p)
+		col.Complete()
 		return
 	}
 	for _, f := range regressFiles("C03") {
-		var c c03Case
-		loadRegress(t, f, &c)
-		c03Eval(t, c, &q)
+		stored(f)
 		col.Label("regress")
 	}
-	c03Flush(t, &q, 1)
 
 	// (a) bounded exhaustive
 	L := pick(3, 5)
